@@ -99,6 +99,14 @@ impl<T, B> IdleConnections<T, B> {
     }
 }
 
+#[cfg(feature = "verif-hooks")]
+impl<T, B> IdleConnections<T, B> {
+    /// Read-only view of the idle entries, oldest first, for the verification harness.
+    pub(super) fn verif_iter(&self) -> impl Iterator<Item = &T> {
+        self.inner.iter().map(|idle| &idle.inner)
+    }
+}
+
 #[cfg(all(test, feature = "mocks"))]
 mod test {
     use std::thread;
